@@ -24,6 +24,7 @@ type schedState struct {
 	hostPanic interface{}
 	kill      bool
 	nondet    bool
+	spawnOnly bool // scheduling choices at goroutine starts only
 	budget    int
 	preempted int
 }
@@ -36,6 +37,7 @@ func (e *Engine) sched() *schedState {
 		s.gors = []*gor{main}
 		s.cur = main
 		s.nondet, _ = e.hostState["nondetSched"].(bool)
+		s.spawnOnly, _ = e.hostState["spawnSched"].(bool)
 		s.budget = 2
 		if b, ok := e.hostState["preemptBudget"].(int); ok {
 			s.budget = b
@@ -82,8 +84,8 @@ func (e *Engine) spawn(fn Value, args []Value) {
 		}()
 		e.call(fn, args, nil)
 	}()
-	if s.nondet {
-		e.schedPoint()
+	if s.nondet || s.spawnOnly {
+		e.schedPointAt(true)
 	}
 }
 
@@ -143,13 +145,15 @@ func (e *Engine) yield() bool {
 }
 
 // schedPoint is called after every successful channel operation.
-func (e *Engine) schedPoint() {
+func (e *Engine) schedPoint() { e.schedPointAt(false) }
+
+func (e *Engine) schedPointAt(spawn bool) {
 	s, _ := e.hostState["sched"].(*schedState)
 	if s == nil {
 		return
 	}
 	s.idle = 0
-	if !s.nondet {
+	if !s.nondet && !(spawn && s.spawnOnly) {
 		return
 	}
 	var runnable []*gor
